@@ -417,6 +417,8 @@ func (p *streamPool) getOrOpenStream() (*Stream, error) {
 				return stream, nil
 			}
 		}
+		// the pool drops this stream: close it, otherwise it stays registered in its session forever
+		stream.Close()
 	}
 
 	stream, err := p.Session().OpenStream()
